@@ -112,6 +112,12 @@ def annotate_fn(item_text, name, c):
             if bm:
                 edits.append(('replace', kw_at + bm.start(1), kw_at + bm.end(1), '/*@B<*/%s/*@B:_>*/' % lc['binder']))
             # if the source already names the binder, the invariant must use that name; nothing to do
+        if lc.get('ghost_iter'):
+            # name the for-loop's ghost iterator: `for pat in EXPR` -> `for pat in it: EXPR` (pure ghost insertion)
+            im = re.search(r'\bin\b', msk[kw_at:lbrace])
+            if not im:
+                raise ScanError('for loop %d of %s: no `in`' % (lc['ordinal'], name))
+            edits.append((kw_at + im.end(), ' ' + ghost(lc['ghost_iter'] + ':') + ' '))
         edits.append((lbrace, ghost(lc['clauses']) + ' '))
     for rw in c.get('rewrites', []):
         for mm in re.finditer(rw['find'], msk[m.end():]):
